@@ -57,3 +57,15 @@ reg("C08", "E1-product",
     "Well-formedness as the property assumes (content-derived directory hashes). Entries with neither hash nor "
     "metadata excluded. roots=/with_unknown=/meta_cmp_key= not varied.",
     "DESIGN.md §4 C08")
+
+reg("C14", "E1-product",
+    "exhaustive enumeration of byte strings x read-size compositions x algorithm names on the real hashing streams, vs hashlib/blake3",
+    "Every byte string over {a,CR,LF,NUL,0xff} of length <= 6 (quick) / 7 (thorough) x every composition of read "
+    "sizes on the md5 stream, 11 algorithm names incl. case variants and blake3, 8 chunk sizes x 3 algorithms on "
+    "the chunked driver, the legacy dos2unix stream with 3 read sizes, CRLF/LF twins; structured strings around "
+    "the 512-byte sniffing window and the 30 % ratio; file-level entry points on local and memory file systems "
+    "incl. files around the 1 MiB read size: ~1.3*10^6 (quick) stream executions, each compared with the "
+    "reference digest of the whole content, the returned bytes and the byte count.",
+    "Alphabet of 5 byte values; twins claimed only when an independent heuristic classifies both as text; "
+    "dos2unix digest only for content that fits in one read; shake_* excluded (no fixed digest length).",
+    "DESIGN.md §4 C14")
